@@ -653,7 +653,7 @@ func run(raw json.RawMessage) lib.Case {
 		for _, p := range ps {
 			p.Done() // otherwise CloseAll waits seconds for lingering instances
 		}
-		lt.CloseAll()
+		closeAll(lt)
 	}()
 	if os.Getenv("VERIF_DEBUG") != "" {
 		fmt.Fprintln(os.Stderr, "scenario", in.Name)
@@ -899,6 +899,21 @@ func corpus() []interface{} {
 		ins = append(ins, tpl)
 	}
 	return ins
+}
+
+// closeAll closes the cluster but does not wait for ever: a server whose Close hangs (that is
+// C10's subject) must not stall this harness; the cluster is then abandoned.
+func closeAll(lt *onet.LocalTest) {
+	done := make(chan struct{})
+	go func() {
+		defer func() { recover() }()
+		lt.CloseAll()
+		close(done)
+	}()
+	select {
+	case <-done:
+	case <-time.After(12 * time.Second):
+	}
 }
 
 func main() {
